@@ -276,3 +276,72 @@ func c01ExtCases(tier string) []c01Case {
 	}
 	return out
 }
+
+// (8) enum value pairs that differ by one punctuation character at the end or at the start ("A" / "A+",
+// "+A" / "A"): the generator spells out some characters (. + - #) so that such values get distinct
+// constant names; every character gets its own case (and signature).
+func c01EnumPairDefs() []DefCase {
+	var out []DefCase
+	chars := []string{".", "+", "-", "#", "&", "*", "/", "<", ">", "=", "!", "@", "$", "%", "^", "~", "|", "?", ":", ";", ",", "'", "\"", "\\", " ", "(", ")", "[", "]", "{", "}", "_"}
+	for i, c := range chars {
+		for j, pair := range [][2]string{{"A" + c, "A"}, {c + "A", "A"}, {"A" + c + "B", "AB"}} {
+			where := []string{"trailing", "leading", "inner"}[j]
+			out = append(out, DefCase{Name: fmt.Sprintf("EP%02d%d", i, j), Schema: J{"type": "string", "enum": A{pair[0], pair[1]}},
+				Desc: fmt.Sprintf("enum pair %q / %q", pair[0], pair[1]), Kw: "enumpair", Chain: "enumpair " + where + " " + c})
+			// the same pair as a property enum
+			out = append(out, DefCase{Name: fmt.Sprintf("EQ%02d%d", i, j), Schema: J{"type": "object", "properties": J{"e": J{"type": "string", "enum": A{pair[0], pair[1]}}}},
+				Desc: fmt.Sprintf("property enum pair %q / %q", pair[0], pair[1]), Kw: "enumpair", Chain: "prop-enumpair " + where + " " + c})
+		}
+	}
+	return out
+}
+
+// c01CaseVariants: every name of the list in lower, Title and UPPER case (the templates' own identifiers
+// are looked up case-insensitively by the name de-confliction: timeout / Timeout / TIMEOUT).
+func c01CaseVariants(names []string) []string {
+	seen := map[string]bool{}
+	var out []string
+	for _, n := range names {
+		for _, v := range []string{n, strings.ToLower(n), strings.ToUpper(n), strings.ToUpper(n[:1]) + strings.ToLower(n[1:])} {
+			if !seen[v] {
+				seen[v] = true
+				out = append(out, v)
+			}
+		}
+	}
+	return out
+}
+
+// (9) one name in ONE position at a time (the carrier of (3) places a name in every position at once, so a
+// failure caused by one position hides what another position would do): one operation per (name, parameter
+// location), packed like the operation universe, and one definition per name with a property of that name.
+func c01NameOps(names []string) []OpCase {
+	var out []OpCase
+	for _, n := range names {
+		for _, loc := range []string{"query", "header", "formData", "path"} {
+			if loc == "path" && rxUnsafeInPath.MatchString(n) {
+				continue
+			}
+			p := J{"in": loc, "name": n, "type": "string"}
+			op := OpCase{Method: "post", Params: []J{p}, Desc: fmt.Sprintf("parameter named %q in %s", n, loc), Class: "name-position | " + loc + " | " + n}
+			switch loc {
+			case "path":
+				p["required"] = true
+				op.Path = "/{" + n + "}"
+			case "formData":
+				op.Cons = []string{"application/x-www-form-urlencoded"}
+			}
+			out = append(out, op)
+		}
+	}
+	return out
+}
+
+func c01NamePropDefs(names []string) []DefCase {
+	var out []DefCase
+	for i, n := range names {
+		out = append(out, DefCase{Name: fmt.Sprintf("NP%03d", i), Schema: J{"type": "object", "required": A{n}, "properties": J{n: J{"type": "string", "minLength": 1}, "other": J{"type": "integer"}}},
+			Desc: fmt.Sprintf("required property named %q", n), Kw: "name", Chain: "name-position property " + n})
+	}
+	return out
+}
